@@ -250,7 +250,7 @@ def run(unit):
         texts = [
             '(@k = @j) and xs[@k] > 0', 'xs[@k] > 0 and (@k = @j)', '@k in {@j} and xs[@k] = y', '@k = @j and abs(@k) > 0', 'abs(@k) > 0 and @k != @j',
             '@k = y and (@k + 1 > 0)', '(@k + 1 > 0) and @k = y', 'x in [0 to @k] and @k = @j', '@k = @j and (forall i in [0 to @k]: @i > 0)',
-            'bool(@k) and @k > 0', '@k > 0 and str(@k) = s', '{@k, @j} = {1} or @k = @j', 'len({@k}) > 0 and -@k < 0',
+            'bool(@k) and @k > 0', '@k > 0 and str(@k) = s', '@k in {@j, 1} or @k = @j', 'len({@k}) > 0 and -@k < 0',
             'forall i in [1 to 3]: (@i = @k)', 'exists i in {1, 2}: (@k = @i and @i > 0)', 'forall i in {"a"}: (@i = @k or @k = s)', '@k = @j and (exists i in [0 to 2]: @i != @k)',
         ]
         for text in texts:
